@@ -127,7 +127,6 @@ func VerifC18_1s_2()     { verifC18(2, false, int64(time.Second)) }
 func VerifC18_10s_3()    { verifC18(3, false, int64(10*time.Second)) }
 func VerifC18_60s_3()    { verifC18(3, false, int64(time.Minute)) }
 func VerifC18_250ms_2()  { verifC18(2, false, int64(250*time.Millisecond)) }
-func VerifC18_Runtime1() { verifC18(1, true, int64(10*time.Second)) }
 
 // verifC18Runtime: the Go runtime's ticker contract. The ticker is created when the first timer
 // value is processed (at t1); tick k is due at when_k and carries the instant it actually fired,
